@@ -27,6 +27,7 @@ func GenSeq(t *rapid.T) *SeqCase {
 			c.Ambient |= busmodel.AmbNils
 		}
 	}
+	c.DetachObs = rapid.IntRange(0, 5).Draw(t, "detachObs") == 0
 	nh := rapid.IntRange(1, 6).Draw(t, "nh")
 	if rapid.IntRange(0, 5).Draw(t, "crowd") == 0 {
 		// a long handler list: small-size thresholds are crossed
